@@ -415,6 +415,7 @@ impl Snapshot {
 		// Track the best match (latest version at or before requested timestamp)
 		let mut best_value: Option<Value> = None;
 		let mut best_timestamp: u64 = 0;
+		let mut found = false;
 
 		while iter.valid() {
 			let entry_key = iter.key();
@@ -432,8 +433,12 @@ impl Snapshot {
 
 			let entry_ts = entry_key.timestamp();
 
-			// Only consider versions at or before the requested timestamp
-			if entry_ts <= timestamp && entry_ts >= best_timestamp {
+			// Only consider versions at or before the requested timestamp. The
+			// cursor lists the versions of a key newest first: of several
+			// versions with the same timestamp the first one seen is the one
+			// committed last, and it stays.
+			if entry_ts <= timestamp && (!found || entry_ts > best_timestamp) {
+				found = true;
 				if entry_key.is_tombstone() {
 					// Key was deleted at this timestamp
 					best_value = None;
